@@ -136,6 +136,33 @@ PROPS = {    "C01": {
         "assumptions": ["a step counts as executing while its label is 'running' (includes waiting out a retry interval)", "termination for every k: every path must end with Schedule returned (deadlock/livelock are violations)"] + RUN_ASSUME,
         "outside_claim": COMMON_OUTSIDE + RUN_OUTSIDE,
     },
+    "C06": {
+        "obligations": [
+            {"name": "C06." + n, "pkg": "./internal/persistence/jsondb", "replay": "R1",
+             "quick": {"entry": "VerifHarness_C06_" + en, "flags": ["-unwind", "64", "-concrete-clock"], "sample_paths": 2, "bounds": b}}
+            for n, en, b in (("newest", "newest2", {"runs": 2, "names": "a, ab, 'a b', a.b, a_c, [a], a*, 20260102.03:04:05", "start_offsets": "same ms, +1ms, +800ms, +1s, +1min, +1day", "writes_per_run": "1..2"}),
+                             ("newest-3runs", "newest3", {"runs": 3, "names": "a, ab, 'a b'", "start_offsets": "6 classes, third run before the first"}),
+                             ("byid", "byid", {"runs": 2, "ids": "sharing their first 8 characters", "update": "with/without manual update", "second_run": "closed or still open"}),
+                             ("isolation", "isolation", {"dags": 2, "operations_on_the_other_dag": "remove-all, rename, update, new run"}),
+                             ("rename", "rename", {"runs": 2, "names": "every ordered pair of the 8 names"}))
+        ],
+        "assumptions": ["file-system model (DESIGN 3.2); instants are concrete representatives (offset classes), file names therefore concrete: filepath.Glob / regexp / sort are evaluated exactly on them",
+                        "status payloads are opaque JSON tokens (json.Marshal/Unmarshal registry model); the status cache is the real filecache executed from source",
+                        "two runs started in the same millisecond whose request ids share their first 8 characters map to one file: outside the claim"],
+        "outside_claim": COMMON_OUTSIDE + ["retention by age (RemoveOld with old files), latest-status 'today' mode, more than 3 runs per DAG", "arbitrary symbolic DAG names (menu only)", "interleaved operation sequences longer than the ones listed"],
+    },
+    "C07": {
+        "obligations": [
+            {"name": "C07.crash", "pkg": "./internal/persistence/jsondb", "replay": "R1c",
+             "must_assert": ["C07.completed/completed-run-is-still-found", "C07.ack/status-not-older-than-the-last-acknowledged-write", "C07.answers/no-run-is-listed-twice"],
+             "quick": {"entry": "VerifHarness_C07_crash", "flags": ["-unwind", "64", "-concrete-clock"], "sample_paths": 2,
+                       "bounds": {"prior_runs": 1, "interrupted_operation": "new run (open, 2 writes, close+compaction) | manual update | rename | remove-old",
+                                  "crash_points": "every mutating FS operation (open/create, write, flush, remove, rename); torn write length symbolic", "names": "a, a_c"}}},
+        ],
+        "assumptions": ["kill = loss of user-space state only (page cache survives; no power loss); directory operations atomic; a torn JSON line never parses",
+                        "crash counterexamples are reported from the symbolic trace (a kill cannot be injected into the in-process native replay)"],
+        "outside_claim": COMMON_OUTSIDE + ["crash of a reader; concurrent writer + crash; more than one prior run", "fsync / power-failure durability"],
+    },
     "C08": {
         "obligations": [
             {"name": "C08.latest", "pkg": "./internal/client", "replay": "R1",
